@@ -1713,7 +1713,12 @@ class Calendar(Component):
         result = set()
         for name, value in self.property_items(sorted=False):
             if hasattr(value, "params"):
-                result.add(value.params.get("TZID"))
+                tzid = value.params.get("TZID")
+                if isinstance(tzid, (list, tuple)):
+                    # TZID=A,B parses to a list of ids
+                    result.update(tzid)
+                else:
+                    result.add(tzid)
         return result - {None}
 
     def get_missing_tzids(self) -> set[str]:
